@@ -21,7 +21,10 @@ import (
 	"fmt"
 	"os"
 	"runtime"
+	"runtime/debug"
+	"runtime/pprof"
 	"sort"
+	"time"
 
 	"verifharness/dnsfix"
 	"verifharness/vlib"
@@ -67,13 +70,13 @@ func planUnits(thorough bool) (units []unit, bounds map[string]interface{}) {
 			per += int64(len(p.ms)*len(p.fams)) * pow5(n)
 			if p.addl {
 				per += 4 * pow5(n)
-				if n <= 2 {
+				if n <= 2 && (p.backend == dnsfix.CDB || n == 1) {
 					per += 2 * pow5(2*n)
 				}
 			}
 		}
 		if p.backend != dnsfix.CDB {
-			per += 4000 // compile + open of a RocksDB directory, in query units
+			per = per*3 + 30000 // compile + open of a RocksDB directory, in query units
 		}
 		p.cost = per
 		units = append(units, unit{kind: "e2e", cost: per * 20, plan: p})
@@ -85,7 +88,7 @@ func planUnits(thorough bool) (units []unit, bounds map[string]interface{}) {
 			case n <= 3 || (thorough && n == 4):
 				addPlan(e2ePlan{set: set, backend: dnsfix.CDB, ms: seq(1, 8), fams: []int{4, 6}, clients: both, addl: true, shuffle: true})
 			case n == 4:
-				addPlan(e2ePlan{set: set, backend: dnsfix.CDB, ms: []int{1, 2, 3, 4, 5, 8}, fams: []int{4}, clients: []string{"aa"}, shuffle: true})
+				addPlan(e2ePlan{set: set, backend: dnsfix.CDB, ms: []int{1, 2, 4, 8}, fams: []int{4}, clients: []string{"aa"}, shuffle: true})
 			case thorough:
 				fams := []int{4}
 				if !hasTag(set) {
@@ -93,10 +96,12 @@ func planUnits(thorough bool) (units []unit, bounds map[string]interface{}) {
 				}
 				addPlan(e2ePlan{set: set, backend: dnsfix.CDB, ms: seq(1, 8), fams: fams, clients: []string{"aa"}, shuffle: true})
 			case !hasTag(set):
-				addPlan(e2ePlan{set: set, backend: dnsfix.CDB, ms: []int{1, 3, 5, 8}, fams: []int{4}, clients: []string{"aa"}})
+				addPlan(e2ePlan{set: set, backend: dnsfix.CDB, ms: []int{1, 4, 8}, fams: []int{4}, clients: []string{"aa"}})
 			}
-			if n <= 2 || (thorough && n == 3) {
+			if thorough && n <= 3 {
 				addPlan(e2ePlan{set: set, backend: dnsfix.RDBv2, ms: seq(1, 8), fams: []int{4, 6}, clients: both, addl: true, shuffle: true})
+			} else if n <= 2 {
+				addPlan(e2ePlan{set: set, backend: dnsfix.RDBv2, ms: []int{1, 2, 3, 8}, fams: []int{4, 6}, clients: both, addl: true, shuffle: true})
 			}
 			if thorough && n <= 2 {
 				addPlan(e2ePlan{set: set, backend: dnsfix.RDBv1, ms: seq(1, 8), fams: []int{4, 6}, clients: both, addl: true, shuffle: true})
@@ -106,7 +111,7 @@ func planUnits(thorough bool) (units []unit, bounds map[string]interface{}) {
 	if thorough {
 		bounds["e2e_bounds"] = "CDB: sets of size 1-4: maxAnswer 1..8, A and AAAA, clients aa and unlocated, additional-section slots, shuffle variation; size 5 (all 792 sets): maxAnswer 1..8, A (AAAA for untagged sets), client aa, shuffle variation. RocksDB v2: sizes 1-3, RocksDB v1: sizes 1-2 (full configuration)"
 	} else {
-		bounds["e2e_bounds"] = "CDB: sets of size 1-3: maxAnswer 1..8, A and AAAA, clients aa and unlocated, additional-section slots, shuffle variation; size 4 (all 330 sets): maxAnswer {1,2,3,4,5,8}, A, client aa, shuffle variation; size 5: the 56 untagged sets, maxAnswer {1,3,5,8}, A. RocksDB v2: sizes 1-2 (full configuration)"
+		bounds["e2e_bounds"] = "CDB: sets of size 1-3: maxAnswer 1..8, A and AAAA, clients aa and unlocated, additional-section slots, shuffle variation; size 4 (all 330 sets): maxAnswer {1,2,4,8}, A, client aa, shuffle variation; size 5: the 56 untagged sets, maxAnswer {1,4,8}, A. RocksDB v2: sizes 1-2 (maxAnswer {1,2,3,8}, otherwise the full configuration)"
 	}
 	// part 2
 	for n := 2; n <= 3; n++ {
@@ -159,9 +164,19 @@ func assign(units []unit, n int) [][]unit {
 	sort.SliceStable(idx, func(a, b int) bool { return units[idx[a]].cost > units[idx[b]].cost })
 	load := make([]int64, n)
 	out := make([][]unit, n)
+	// RocksDB units first, onto half of the shards only (their sub-case databases are then shared)
+	sort.SliceStable(idx, func(a, b int) bool {
+		ra := units[idx[a]].kind == "e2e" && units[idx[a]].plan.backend != dnsfix.CDB
+		rb := units[idx[b]].kind == "e2e" && units[idx[b]].plan.backend != dnsfix.CDB
+		return ra && !rb
+	})
 	for _, i := range idx {
+		lim := n
+		if units[i].kind == "e2e" && units[i].plan.backend != dnsfix.CDB {
+			lim = (n + 1) / 2
+		}
 		best := 0
-		for s := 1; s < n; s++ {
+		for s := 1; s < lim; s++ {
 			if load[s] < load[best] {
 				best = s
 			}
@@ -179,6 +194,7 @@ const schedBound = 3
 
 func main() {
 	runtime.GOMAXPROCS(1)
+	debug.SetGCPercent(400)
 	r := vlib.Start("C11")
 	if p := replayArg(); p != "" {
 		dir, clean := vlib.Scratch("c11")
@@ -197,10 +213,20 @@ func main() {
 		scratchDir = dir
 		dnsfix.Quiet(dir)
 		installSource()
+		if pf := os.Getenv("VERIF_CPUPROFILE"); pf != "" {
+			f, _ := os.Create(pf)
+			pprof.StartCPUProfile(f)
+			defer pprof.StopCPUProfile()
+		}
 		var es e2eStats
 		var ps propStats
 		var ss sharedStats
+		spent := map[string]time.Duration{}
 		for _, u := range assign(units, n)[idx] {
+			if f := os.Getenv("VERIF_DEBUG_ONLY"); f != "" && !(f == u.kind || (f == "rdb" && u.kind == "e2e" && u.plan.backend != dnsfix.CDB)) {
+				continue // debugging aid: run a single kind of unit
+			}
+			t0 := time.Now() // reporting only (VERIF_DEBUG); nothing depends on it
 			switch u.kind {
 			case "e2e":
 				runPlan(r, u.plan, &es)
@@ -214,9 +240,14 @@ func main() {
 			case "sched":
 				runShared(r, u.sc, schedBound, &ss)
 			}
+			spent[u.kind] += time.Since(t0)
 		}
 		closeWorlds()
 		clean()
+		pprof.StopCPUProfile()
+		if os.Getenv("VERIF_DEBUG") != "" {
+			fmt.Fprintf(os.Stderr, "shard %d: %v\n", idx, spent)
+		}
 		r.Add("e2e_evaluations", es.evals)
 		r.Add("e2e_shuffle_evaluations", es.shuffleEvals)
 		r.Add("e2e_nontrivial", es.nontrivial)
